@@ -802,8 +802,12 @@ class Scores:
 
         # The function f is increasing, but not strictly, i.e., it can have flat spots,
         # so we find the left-most root, the right-most root and then take the average.
-        left = self._find_root(f, 0.0, max_eer, find_first=True)
-        right = self._find_root(f, 0.0, max_eer, find_first=False)
+        # The rates move in steps of one sample, so with billions of (easy) samples the
+        # default tolerance is too coarse to resolve the crossing.
+        xtol = min(1e-10, 1e-3 / max(self.nb_all_pos, self.nb_all_neg))
+        xtol = max(xtol, 4 * np.finfo(float).eps)  # Attainable for rates up to 1.0
+        left = self._find_root(f, 0.0, max_eer, find_first=True, xtol=xtol)
+        right = self._find_root(f, 0.0, max_eer, find_first=False, xtol=xtol)
 
         eer = (left + right) / 2
         threshold = self.threshold_at_fpr(eer)
